@@ -11,15 +11,16 @@ open Std Beetswap.Net Beetswap.Wl
 open Beetswap.Client (PeerSt Sending StoreRes Out TaskSt TaskKind Sys sendFullInterval)
 
 /-- the invariants the progress argument uses, as a predicate on states -/
-def PInv (store : KMap Nat) (s : State) : Prop := ∃ g : GS, g.s = s ∧ NInv store g ∧ BCInv s
+def PInv (store : KMap Nat) (s : State) : Prop :=
+  ∃ g : GS, g.s = s ∧ NInv store g ∧ BCInv s ∧ PA.QEv s
 
 theorem pinv_init (store : KMap Nat) : PInv store (init store) :=
-  ⟨ginit store, rfl, ninv_init store, bcinv_init store⟩
+  ⟨ginit store, rfl, ninv_init store, bcinv_init store, PA.qev_init store⟩
 
 theorem pinv_step (store : KMap Nat) (s : State) (act : Act) (h : PInv store s) :
     PInv store (step s act) := by
-  obtain ⟨g, rfl, hi, hc⟩ := h
-  exact ⟨gnext g act, rfl, ninv_step store g act hi, bcinv_step g.s act hi.b hc⟩
+  obtain ⟨g, rfl, hi, hc, hq⟩ := h
+  exact ⟨gnext g act, rfl, ninv_step store g act hi, bcinv_step g.s act hi.b hc, PA.qev_step g.s act hq⟩
 
 theorem pinv_reach (store : KMap Nat) (s : State) (h : Reachable store s) : PInv store s := by
   induction h with
@@ -29,12 +30,12 @@ theorem pinv_reach (store : KMap Nat) (s : State) (h : Reachable store s) : PInv
 /-- no internal action increases the measure -/
 theorem meas_step_le (store : KMap Nat) (s : State) (act : Act) (hact : act.internal = true)
     (h : PInv store s) : (meas (step s act)).le (meas s) := by
-  obtain ⟨g, rfl, hi, hc⟩ := h
+  obtain ⟨g, rfl, hi, hc, hqe⟩ := h
   cases act with
   | get k => cases hact
   | cancel q => cases hact
   | refresh => cases hact
-  | drainA => exact (meas_drainA g hi.a).1
+  | drainA => exact (meas_drainA g hi.a hqe).1
   | drainB => exact (meas_drainB g.s hi.b hc).1
   | lookupA n => exact (meas_lookupA g hi.a n).1
   | putDoneA n => exact (meas_putDoneA g hi.a n).1
@@ -91,7 +92,7 @@ theorem drainA_fields (store : KMap Nat) (s : State) (h : PInv store s) :
     (∃ l, (step s .drainA).callsA = s.callsA ++ l) ∧ (∃ l, (step s .drainA).putsA = s.putsA ++ l) ∧
     (∃ l, (step s .drainA).wireAB = s.wireAB ++ l) ∧ (step s .drainA).wireBA = s.wireBA ∧
     (step s .drainA).callsB = s.callsB := by
-  obtain ⟨g, rfl, hi, _⟩ := h
+  obtain ⟨g, rfl, hi, _, _⟩ := h
   rw [step_drainA g.s hi.a.srv]
   obtain ⟨f1, _, _, f4, f5⟩ := absorbA_fields
     (Client.drain g.s.a.client g.s.a.now g.s.a.seq (Node.prefOf [])).2.2 { g.s with a := drainedA g.s.a }
@@ -109,7 +110,7 @@ theorem ne_nil_append {α : Type} {l : List α} (h : l ≠ []) (r : List α) : l
 /-- the seven reasons for not being quiescent -/
 theorem not_quiescent_cases (store : KMap Nat) (s : State) (h : PInv store s) (hq : quiescent s = false) :
     BusyA s ∨ s.callsA ≠ [] ∨ s.putsA ≠ [] ∨ s.wireAB ≠ [] ∨ BusyB s ∨ s.callsB ≠ [] ∨ s.wireBA ≠ [] := by
-  obtain ⟨g, rfl, hi, hc⟩ := h
+  obtain ⟨g, rfl, hi, hc, _⟩ := h
   apply Classical.byContradiction
   intro hn
   simp only [not_or, BusyA, Classical.not_not] at hn
@@ -197,12 +198,12 @@ theorem round_lt (store : KMap Nat) (s : State) (h : PInv store s) (hq : quiesce
   obtain ⟨_, ⟨lp4, hp4⟩, ⟨lw4, hw4⟩, hba4, hcb4⟩ := drainA_fields store s3 p3
   rcases not_quiescent_cases store s h hq with hA | hA | hA | hA | hA | hA | hA
   · -- `a` is busy: the first drain is strict
-    obtain ⟨g, hg, hi, _⟩ := h
+    obtain ⟨g, hg, hi, hc, hqe⟩ := h
     subst hg
-    exact e1 (strict _ ⟨⟨g, rfl, hi, by assumption⟩, Meas.le_refl _⟩ _ ((meas_drainA g hi.a).2 hA))
+    exact e1 (strict _ ⟨⟨g, rfl, hi, hc, hqe⟩, Meas.le_refl _⟩ _ ((meas_drainA g hi.a hqe).2 hA))
   · -- a lookup of `a` is pending
     have hne : s1.callsA ≠ [] := by show (step s .drainA).callsA ≠ []; rw [hc1]; exact ne_nil_append hA _
-    obtain ⟨g1, hg1, hi1, _⟩ := p1
+    obtain ⟨g1, hg1, hi1, _, _⟩ := p1
     cases hl : s1.callsA with
     | nil => exact absurd hl hne
     | cons c l =>
@@ -222,7 +223,7 @@ theorem round_lt (store : KMap Nat) (s : State) (h : PInv store s) (hq : quiesce
       unfold phLookupA
       exact fold_keeps (fun t => t.putsA ≠ []) (fun (c : Nat × Nat) => Act.lookupA c.1)
         (fun t c ht => by rw [(lookupA_fields t c.1).1]; exact ht) _ _ hne1
-    obtain ⟨g2, hg2, hi2, _⟩ := p2
+    obtain ⟨g2, hg2, hi2, _, _⟩ := p2
     cases hl : s2.putsA with
     | nil => exact absurd hl hne
     | cons c l =>
@@ -248,7 +249,7 @@ theorem round_lt (store : KMap Nat) (s : State) (h : PInv store s) (hq : quiesce
       exact fold_keeps (fun t => t.wireAB ≠ []) (fun c => Act.putDoneA c)
         (fun t c ht => by rw [(putDoneA_fields t c).1]; exact ht) _ _ hne2
     have hne : s4.wireAB ≠ [] := by show (step s3 .drainA).wireAB ≠ []; rw [hw4]; exact ne_nil_append hne3 _
-    obtain ⟨g4, hg4, hi4, _⟩ := p4
+    obtain ⟨g4, hg4, hi4, _, _⟩ := p4
     cases hl : s4.wireAB with
     | nil => exact absurd hl hne
     | cons c l =>
@@ -277,9 +278,9 @@ theorem round_lt (store : KMap Nat) (s : State) (h : PInv store s) (hq : quiesce
       unfold phDeliverAB
       apply fold_keeps (fun t => PInv store t ∧ BusyB t) (fun _ => Act.deliverAB) _ _ _ ⟨p4, hb4⟩
       intro t _ ht
-      obtain ⟨g, hg, hi, _⟩ := ht.1
+      obtain ⟨g, hg, hi, _, _⟩ := ht.1
       exact ⟨pinv_step store t _ ht.1, busyB_deliverAB t (hg ▸ hi.b) ht.2⟩
-    obtain ⟨g5, hg5, hi5, hc5⟩ := p5
+    obtain ⟨g5, hg5, hi5, hc5, _⟩ := p5
     have hlt : (meas (step s5 .drainB)).lt (meas s5) := by
       have := (meas_drainB g5.s hi5.b (hg5 ▸ hc5)).2 (hg5 ▸ hb5.2)
       rw [hg5] at this; exact this
@@ -306,12 +307,12 @@ theorem round_lt (store : KMap Nat) (s : State) (h : PInv store s) (hq : quiesce
       cases hw : t.wireAB with
       | nil => rw [deliverAB_nil t hw]; exact ht
       | cons m rest => rw [(deliverAB_frame t m rest hw).2.2.2.2.1]; exact ht
-    obtain ⟨g5, hg5, hi5, _⟩ := p5
+    obtain ⟨g5, hg5, hi5, _, _⟩ := p5
     have hn6 : s6.callsB ≠ [] := by
       show (step s5 .drainB).callsB ≠ []
       have := (drainB_fields s5 (hg5 ▸ hi5.b.cl)).2.2.2.1
       rw [this]; exact ne_nil_append hn5 _
-    obtain ⟨g6, hg6, hi6, _⟩ := p6
+    obtain ⟨g6, hg6, hi6, _, _⟩ := p6
     cases hl : s6.callsB with
     | nil => exact absurd hl hn6
     | cons c l =>
@@ -357,7 +358,7 @@ theorem round_lt (store : KMap Nat) (s : State) (h : PInv store s) (hq : quiesce
       show (step s7 .drainB).wireBA ≠ []
       obtain ⟨new, hnew⟩ := drainB_wire s7
       rw [hnew]; exact ne_nil_append hn7 _
-    obtain ⟨g8, hg8, hi8, _⟩ := p8
+    obtain ⟨g8, hg8, hi8, _, _⟩ := p8
     cases hl : s8.wireBA with
     | nil => exact absurd hl hn8
     | cons c l =>
